@@ -387,6 +387,11 @@ def getitem(R, E, base, idx, node):
             raise Unsupported("slice of symbolic list")
         i = norm_index(E, idx, base.length, node)
         return base.get(i)
+    from .engine import SymSeq
+    if isinstance(base, SymSeq):
+        if isinstance(idx, slice):
+            raise Unsupported("slice of lazy sequence")
+        return base.item(norm_index(E, idx, base.length, node))
     if is_str_like(base):
         if conc(base) and (isinstance(idx, slice) and all(x is None or conc(x) for x in (idx.start, idx.stop, idx.step)) or conc(idx) and not isinstance(idx, slice)):
             try:
@@ -577,6 +582,8 @@ def call_method(R, E, recv, name, args, kwargs, node):
                 return E.call_closure(Closure(m, None, recv), args, kwargs, node)
             if m is not None:
                 return R.call_extern(E, ExternFn(m, recv), args, kwargs, node)
+            E.raise_("AttributeError", node, "safety")
+        if recv.tag == "estimator" and name not in recv.fields["$methods"]:
             E.raise_("AttributeError", node, "safety")
         f = R.methods.get((recv.tag, name)) or R.methods.get(("*", name))
         if f is None:
@@ -787,6 +794,9 @@ def iterspec(R, E, v, node):
         return IterSpec(length=v.shape[0], item=lambda k: getitem(R, E, v, k, None))
     if isinstance(v, SList):
         return IterSpec(length=v.length, item=lambda k: v.get(k))
+    from .engine import SymSeq
+    if isinstance(v, SymSeq):
+        return IterSpec(length=v.length, item=lambda k: v.item(k))
     if isinstance(v, _SD):
         return v.iterspec(E)
     hook = getattr(R, "iter_hook", None)
@@ -798,20 +808,18 @@ def iterspec(R, E, v, node):
 
 
 def symbolic_comprehension(R, E, spec, gen, sub, elt, node):
-    """[f(x) for x in <symbolic-length seq>]: rule 3, the comprehension itself is the summary.
-    Only for element expressions without side effects whose value is a z3 scalar."""
-    k = z3.Int(fresh_name("ck"))
-    E.assign(gen.target, spec.item(k), sub)
-    nobl = len(E.obligations)
-    ntrail = len(E.trail)
-    val = elt(sub)
-    if len(E.trail) != ntrail:
-        raise Unsupported("comprehension element forks on a symbolic condition at %s" % E.where(node))
-    if not is_sym(val) and not isinstance(val, (int, Fraction, bool, str)):
-        raise Unsupported("comprehension over symbolic space with non-scalar element at %s" % E.where(node))
-    val = z(val)
-    out = SList(spec.length, z3.Lambda([k], val), val.sort())
-    return out
+    """[f(x) for x in <symbolic-length seq>] -> lazy SymSeq (rule 3: the comprehension is its own
+    summary).  One generic element is evaluated on a side path (safety obligations, raising paths)."""
+    from .engine import SymSeq, Frame
+
+    def g(k):
+        fr = Frame(sub.func, sub.module, parent=sub.parent)
+        fr.localnames = set()
+        E.assign(gen.target, spec.item(k), fr)
+        return elt(fr)
+    seq = SymSeq(spec.length, g)
+    E.generic_element_check(seq, node)
+    return seq
 
 
 # ----------------------------------------------------------------------------- builtins
@@ -832,6 +840,9 @@ def install(R):
                 E.raise_("TypeError", None, "safety")
             return v.shape[0]
         if isinstance(v, SList):
+            return v.length
+        from .engine import SymSeq
+        if isinstance(v, SymSeq):
             return v.length
         if isinstance(v, _SD):
             return v.size()
